@@ -1523,6 +1523,31 @@ def leaves_clauses(arr0, n0, arr1, n1, t):
             ('leaves-in-order', z3.ForAll([i], z3.Implies(z3.And(i >= n0, i < n0 + k), z3.Select(arr1, i) == leaf_tag(t, i - n0))))]
 
 
+def find_recursive_helper(rel, outer_name, default):
+    """the recursive helper of an encoder, found by role: the one function `outer_name` calls (outside its nested defs) that calls itself - nested in the
+    encoder or at module level.  Returns its qualified name; `default` when the encoder has no such helper (the contract then reports it as not found)."""
+    import ast
+    from vc.sorts import parse_source
+    mod = parse_source(rel)
+    outer = [n for n in mod.body if isinstance(n, ast.FunctionDef) and n.name == outer_name]
+    if not outer:
+        return default
+    outer = outer[0]
+    nested = {n.name: n for n in outer.body if isinstance(n, ast.FunctionDef)}
+    toplevel = {n.name: n for n in mod.body if isinstance(n, ast.FunctionDef)}
+    recursive = lambda fn: any(isinstance(n, ast.Call) and isinstance(n.func, ast.Name) and n.func.id == fn.name for n in ast.walk(fn))
+    inside = {id(n) for fn in nested.values() for n in ast.walk(fn)}
+    found = []
+    for c in ast.walk(outer):
+        if isinstance(c, ast.Call) and isinstance(c.func, ast.Name) and id(c) not in inside:
+            if c.func.id in nested and recursive(nested[c.func.id]):
+                found.append(f'{outer_name}.{c.func.id}')
+            elif c.func.id in toplevel and c.func.id != outer_name and recursive(toplevel[c.func.id]):
+                found.append(c.func.id)
+    found = sorted(set(found))
+    return found[0] if len(found) == 1 else default
+
+
 class _SymSeg:
     """the one element of a concrete python list that stands for `all elements of a symbolic list` (a list object that a callee filled in place)"""
     def __init__(self, sym):
